@@ -152,6 +152,7 @@ def sig_of(arr, block, case, clause):
     C, Z, Y, X = arr.shape
     return {"clause": clause, "codec": "compressed_segmentation", "dtype": arr.dtype.name,
             "channels": C, "block_cubic": f["cubic"], "partial_blocks": f["partial"],
+            "presented_as": case.get("how", "C"),
             "enc_exc": case["enc"]["cls"] if case["enc"]["st"] != "ok" else "",
             "own_decode": case["dec"]["st"] if case["dec"]["st"] != "exc" else case["dec"]["cls"]}
 
@@ -221,8 +222,10 @@ def run(ctx):
     budget = ctx.pick(900, 1400)
     for _ in range(n):
         arr, block = gen_array(ctx, ctx.rng, budget)
-        case, _raw = cd.record_cseg_encode(arr, block)
-        items.append((arr, block, case, "random"))
+        how = ctx.rng.choice(cd.PRESENTATIONS)
+        case, _raw = cd.record_cseg_encode(arr, block, how)
+        case["how"] = how
+        items.append((arr, block, case, "random" if how == "C" else "random/" + how))
 
     # one block with > 65536 distinct labels: the only way to make the encoder
     # choose 32-bit indices (needs a block of > 65536 voxels, i.e. beyond the
@@ -304,7 +307,8 @@ def replay(ctx, path):
     d = rp["detail"]
     X, Y, Z = d["shape_xyz"]
     arr = np.array(d["array"], dtype=d["dtype"]).reshape(d["channels"], Z, Y, X)
-    case, _ = cd.record_cseg_encode(arr, d["block"])
+    how = d["origin"].split("/", 1)[1] if d.get("origin", "").startswith("random/") else "C"
+    case, _ = cd.record_cseg_encode(arr, d["block"], how)
     v = ctx.judge("Trace_CSeg", [case])
     print("replay: encode=%s own_decode=%s" % (case["enc"]["st"] + ":" + case["enc"]["cls"],
                                                case["dec"]["st"] + ":" + case["dec"]["cls"]))
